@@ -270,6 +270,12 @@ TEXTUAL = [
     ("C02", "einsum-multi-mode-dot-skip-ignored", "tensorly/tenalg/einsum_tenalg/n_mode_product.py", "        if (skip is not None) and (i == skip):\n            # print(f'skipping {skip}')\n            continue\n", "        if (skip is not None) and (i == skip):\n            pass\n"),
     ("C02", "core-multi-mode-dot-applies-twice", "tensorly/tenalg/core_tenalg/n_mode_product.py", "            res = mode_dot(res, matrix_or_vec, mode - decrement)\n\n        if T.ndim", "            res = mode_dot(mode_dot(res, matrix_or_vec, mode - decrement), matrix_or_vec, mode - decrement)\n\n        if T.ndim"),
     ("C02", "einsum-kronecker-drops-last", "tensorly/tenalg/einsum_tenalg/_kronecker.py", "T.einsum(equation, *matrices[::order])", "T.einsum(equation, *matrices[::order][:-1])"),
+    ("C02", "contraction-mode2-normalised-with-ndim1", "tensorly/tenalg/tenalg_utils.py", "            modes2[i] += ndim2", "            modes2[i] += ndim1"),
+    ("C02", "contraction-shape2-indexed-by-modes1", "tensorly/tenalg/tenalg_utils.py", "        if shape1[modes1[i]] != shape2[modes2[i]]:", "        if shape1[modes1[i]] != shape2[modes1[i]]:"),
+    ("C02", "contraction-modes-returned-swapped", "tensorly/tenalg/tenalg_utils.py", "    return modes1, modes2", "    return modes2, modes1"),
+    ("C02", "tensordot-free-modes2-exclude-modes1", "tensorly/tenalg/core_tenalg/_batched_tensordot.py", "if i not in batch_modes2 + modes2]", "if i not in batch_modes2 + modes1]"),
+    ("C02", "tensordot-transpose2-with-axes1", "tensorly/tenalg/core_tenalg/_batched_tensordot.py", "tl.transpose(tensor2, batch_modes2 + modes2 + new_modes2)", "tl.transpose(tensor2, batch_modes2 + modes2 + new_modes1)"),
+    ("C02", "einsum-tensordot-remaining2-exclude-modes1", "tensorly/tenalg/einsum_tenalg/_batched_tensordot.py", "if i not in modes2 + batch_modes2", "if i not in modes1 + batch_modes2"),
     ("C03", "cp-ctor-skips-validation", "tensorly/cp_tensor.py", "        shape, rank = _validate_cp_tensor(cp_tensor)\n        weights, factors = cp_tensor\n", "        weights, factors = cp_tensor\n        shape, rank = tuple(f.shape[0] for f in factors), factors[0].shape[1]\n"),
     ("C03", "tt-vec-of-other-family", "tensorly/tt_tensor.py", "    return tl.tensor_to_vec(tt_to_tensor(factors))", "    return tl.tensor_to_vec(tt_to_tensor(factors[::-1]))"),
     ("C03", "tucker-unfolded-wrong-mode", "tensorly/tucker_tensor.py", "        mode,\n    )", "        mode + 1,\n    )"),
